@@ -273,7 +273,8 @@ class HttpParser:
 
         # URI
         self._url = bits[1]
-        parts = urlsplit(bits[1])
+        # origin-form (RFC 7230 5.3.1) is a path even if its first segment is empty: '//a/b' has no authority
+        parts = urlsplit('//' + bits[1] if bits[1].startswith('/') else bits[1])
         self._scheme = parts.scheme or None
         self._path = parts.path or ''
         self._query_string = parts.query or ''
